@@ -3,7 +3,7 @@
    executable model; the ESTIMATOR IDENTITIES that make the outputs correct can (finite spaces; no measure theory
    library is installed).  The statistical behaviour is the business of the search (replicated runs on analytic targets). *)
 From Coq Require Import Reals List Bool.
-From AV Require Import Lib.Vec Proofs.C01 Proofs.C05 Lib.XR.
+From AV Require Import Lib.Vec Proofs.C01 Proofs.C05 Lib.XR Gen.Calls.
 Import ListNotations.
 Open Scope R_scope.
 
@@ -45,7 +45,16 @@ Theorem C01_ladder_targets_evidence_partial : forall {A} (pts : list A) (lq lt :
   = ln (vsum (map (fun x => exp (lt x)) pts)).
 Proof. intros A pts lq lt bs H. exact (ladder_targets_evidence pts lq lt H bs). Qed.
 
+(* the importance sampler (generated from ImportanceSampler.sample, Gen/Calls.v) weighs EVERY draw it was given: the returned
+   set is the drawn set and its log-weights are log L + log pi - log q of each draw, zero-weight draws included - the mean
+   weight of C01_evidence_unbiased_partial is therefore taken over all n draws, not over a filtered subset *)
+Theorem C01_importance_weighs_every_draw_partial : forall {X} (L Pi : X -> XR) (x : list X) (lq : list XR) n0,
+  Gen.Calls.importance_sample_x x lq n0 = x
+  /\ Gen.Calls.importance_sample_log_w L Pi x lq n0 = vmap2 xsub (vmap2 xadd (map L x) (map Pi x)) lq.
+Proof. intros. split; reflexivity. Qed.
+
 Print Assumptions C01_evidence_unbiased_partial.
+Print Assumptions C01_importance_weighs_every_draw_partial.
 Print Assumptions C01_incremental_weight_mean_partial.
 Print Assumptions C01_ladder_targets_evidence_partial.
 Print Assumptions C01_tempered_path_telescopes_partial.
